@@ -53,6 +53,32 @@ def gen_docset(items):
             raise Fail(f'{u}: buffered-window guard of seek_danger not found')
         return D('UNION_SEEK_DANGER_BELOW_WINDOW_BUFFERED', 1 if m.group(1) else 0, 'seek_danger treats target < window_start as buffered (1) or as beyond the horizon (0)')
     items.append(danger_guard)
+    # out-of-horizon branch of `seek`: children are sought only `if docset.doc() < target` (0), or every
+    # child is re-validated with `docset.seek(docset.doc().max(target))` (1)
+    def seek_children_guard():
+        text = strip_comments(src(u))
+        m = re.search(r'fn\s+seek\s*\(&mut self,\s*target:\s*DocId\)\s*->\s*DocId\s*\{(.*?)\n    \}', text, flags=re.S)
+        if not m:
+            raise Fail(f'{u}: fn seek not found')
+        body = m.group(1)
+        if re.search(r'if\s+docset\.doc\(\)\s*<\s*target\s*\{\s*docset\.seek\(target\);\s*\}', body):
+            return D('UNION_SEEK_REVALIDATES_CHILDREN', 0, 'out-of-horizon seek: children sought only if doc() < target')
+        if re.search(r'docset\.doc\(\)\.max\(target\)', body) and re.search(r'docset\.seek\(', body):
+            return D('UNION_SEEK_REVALIDATES_CHILDREN', 1, 'out-of-horizon seek: every child re-validated by seek(max(doc, target))')
+        raise Fail(f'{u}: child handling of the out-of-horizon branch of seek not recognised')
+    items.append(seek_children_guard)
+    # BitSetDocSet::seek past max_value: only `doc = TERMINATED` (0) or the cursor is exhausted too (1)
+    def bitset_guard():
+        b = 'src/query/bitset/mod.rs'
+        text = strip_comments(src(b))
+        m = re.search(r'if\s+target\s*>=\s*self\.docs\.max_value\(\)\s*\{(.*?)return\s+TERMINATED\s*;', text, flags=re.S)
+        if not m:
+            raise Fail(f'{b}: `target >= max_value` branch of seek not found')
+        blk = m.group(1)
+        if 'self.doc = TERMINATED' not in blk.replace('  ', ' '):
+            raise Fail(f'{b}: seek past max_value no longer sets doc = TERMINATED')
+        return D('BITSET_SEEK_PAST_MAX_EXHAUSTS_CURSOR', 1 if re.search(r'self\.cursor_tinybitset\s*=\s*TinySet::empty\(\)', blk) else 0, b)
+    items.append(bitset_guard)
     # density threshold of Intersection::count_including_deleted
     def density():
         body = fn_body('src/query/intersection.rs', 'count_including_deleted')
